@@ -77,7 +77,7 @@ class PropertyRun:
             saved = None
             if overrides is not None:
                 saved = self.E.contracts.get(qn)
-                c2 = dict(saved or {})
+                c2 = {} if overrides.get("+replace") else dict(saved or {})
                 c2.update({k: v for k, v in overrides.items() if not k.startswith("+")})
                 self.E.contracts[qn] = c2
                 inl = overrides.get("+inline", [])
